@@ -434,6 +434,15 @@ func run(cfg workerCfg, noEvidence bool) int {
 				}
 			}
 		}
+		if sig == s && s == "process-crash" && !isRaceCase(v.Case) && (cfg.Prop == "C02" || cfg.Prop == "C06" || cfg.Prop == "C17") {
+			// these properties compare a call with the same call executed alone: a crash that also happens alone is
+			// independent of history and interleaving and is not theirs to report
+			if n, err := callsim.CrashesAlone(v.Case); err == nil && n > 0 {
+				fmt.Fprintf(os.Stderr, "NOT-A-VERDICT: the code under test kills the process (%s), but %d call(s) of that world do so when executed alone on a fresh Model in a fresh process too; %s is about history and interleaving and says nothing about it\n", v.What, n, cfg.Prop)
+				trouble = true
+				continue
+			}
+		}
 		if sig != s {
 			fmt.Fprintf(os.Stderr, "NOT-REPRODUCED: violation %q seen by a worker did not reproduce in a fresh process (got %q); not reported as a verdict\n", s, sig)
 			notReproduced++
